@@ -207,7 +207,9 @@ Deliver(s, ev) ==
 GIVEUP_MS == 2500
 Live(s) == \E c \in Conns(s) : s.conn[c] \in {"pending", "up", "half"}
 Idle(s) ==
-  [s EXCEPT !.idleSince = IF Live(s) THEN -1 ELSE IF @ = -1 THEN s.now ELSE @,
+  \* (while the environment holds the client - a stalled link whose close cannot complete, a subscriber
+  \*  that does not return - it is not the client that sits idle: the clock starts when the hold ends)
+  [s EXCEPT !.idleSince = IF Live(s) \/ s.blocked > 0 THEN -1 ELSE IF @ = -1 THEN s.now ELSE @,
             !.openSince = IF Op(s) = "yes" THEN (IF @ = -1 THEN s.now ELSE @) ELSE -1]
 
 Quiesce(s) ==
